@@ -1688,10 +1688,41 @@ CONTRACTS = CONTRACTS + [OPEN_TYPES_N_INDEF]
 
 
 # ---- _createComponent: what every simple payload decoder hands out (the model `create_component` above, discharged) -----------
+# tags are integers here (class, format and number packed), tag sequences are int tuples of any length
+def _cc_tags(name):
+    from pyvc.core import SeqV
+    return SeqV(z3.Const(name, z3.SeqSort(z3.IntSort())), 'tuple')
+
+
+def _cc_tagset(ex, base, **kw):
+    """tag.TagSet(baseTag, *superTags)"""
+    from pyvc.core import SeqV
+    sup = kw.get('*')
+    if sup is None:
+        raise Unsupported('tag.TagSet() without a tag sequence')
+    return Obj('TagSet', {'baseTag': base, 'superTags': sup, '__truthy__': z3.Length(sup.z) > 0}, name='builtTagSet')
+
+
+def _cc_item(ex, self, k):
+    # tagSet[k]: the k-th tag, innermost first (an integer here; equal integers = equal tags, which is how Tag.__eq__
+    # behaves on (class, number) -- the format bit does not take part)
+    return self.fields['superTags'].z[toint(k)]
+
+
 def _cc_self(ex, env):
     def clone(ex2, self, value=NOVALUE, **kw):
         return Obj('Asn1Value', {'value': value, 'spec': None, 'tagSet': kw.get('tagSet'), 'cloneOf': self}, name='component')
-    return Obj('AbstractSimplePayloadDecoder', {'protoComponent': Obj('Asn1Type', {}, {'clone': clone}, name='protoComponent')}, name='self')
+    sup = _cc_tags('proto.superTags')
+    proto_ts = Obj('TagSet', {'baseTag': z3.Int('proto.baseTag'), 'superTags': sup, '__truthy__': z3.Length(sup.z) > 0},
+                   {'__getitem__': _cc_item}, name='protoComponent.tagSet')
+    return Obj('AbstractSimplePayloadDecoder', {'protoComponent': Obj('Asn1Type', {'tagSet': proto_ts}, {'clone': clone},
+                                                                      name='protoComponent')}, name='self')
+
+
+def _cc_wire(ex, env):
+    sup = _cc_tags('wire.superTags')
+    return Obj('TagSet', {'baseTag': z3.Int('wire.baseTag'), 'superTags': sup, '__truthy__': z3.Length(sup.z) > 0},
+               {'__getitem__': _cc_item}, name='tagSet')
 
 
 def _cc_spec(ex, env):
@@ -1702,23 +1733,41 @@ def _cc_spec(ex, env):
     return None
 
 
+_CC_PROTO = z3.Const('proto.superTags', z3.SeqSort(z3.IntSort()))
+_CC_WIRE = z3.Const('wire.superTags', z3.SeqSort(z3.IntSort()))
 CREATE_COMPONENT = Contract(
     id='ber.decoder::AbstractSimplePayloadDecoder._createComponent', file=F, qual='AbstractSimplePayloadDecoder._createComponent',
-    properties=['C10', 'C16', 'C12', 'C01'],
-    params=dict(self=PDerived(_cc_self), asn1Spec=PDerived(_cc_spec), tagSet=PConst(Obj('TagSet', {}, name='tagSet')),
+    properties=['C10', 'C16', 'C12', 'C01', 'C04'],
+    params=dict(self=PDerived(_cc_self), asn1Spec=PDerived(_cc_spec), tagSet=PDerived(_cc_wire),
                 value=PDerived(lambda ex, env: NOVALUE if ex.choose(z3.Bool('value.isNoValue'), 'no-value') else z3.Int('value')),
                 options=POptions(native=PBool())),
-    globals={'given': z3.Bool('spec.given'), 'noValue': NOVALUE, 'isNoValue': z3.Bool('value.isNoValue')},
+    globals={'given': z3.Bool('spec.given'), 'noValue': NOVALUE, 'isNoValue': z3.Bool('value.isNoValue'),
+             'tag': {'TagSet': FnV(_cc_tagset, 'tag.TagSet'), '__name__': 'tag'},
+             'protoTags': SeqV(_CC_PROTO, 'any'), 'wireTags': SeqV(_CC_WIRE, 'any'),
+             'protoBase': z3.Int('proto.baseTag'),
+             'nProto': z3.Length(_CC_PROTO), 'nWire': z3.Length(_CC_WIRE)},
     ensures=[
         # with a guide: a *new* object of the guide's type holding the value (the guide itself only when there is no value:
         # substrate collectors get the schema) -- C12: decoding never hands out the guide loaded with a value
         ('guided-value-is-a-clone-of-the-guide', '(given and not isNoValue and not options.get("native", False)) ==> '
                                                  '(result.cloneOf is asn1Spec and result.value == value and result is not asn1Spec)'),
-        # without a guide: the codec's prototype retagged with the tags found on the wire (C16)
-        ('schemaless-value-carries-the-wire-tags', '((not given) and not options.get("native", False)) ==> '
-                                                   '(result.cloneOf is self.protoComponent and result.tagSet is tagSet)'),
+        # without a guide: the codec's prototype; its own tag(s) the way the type declares them -- not the innermost tag as
+        # it was found on the wire, whose format bit says "constructed" for a segmented string (C04/C16: the re-encoding
+        # would carry that bit over primitive contents) --, then the outer (explicit) tags found on the wire
+        ('schemaless-value-is-the-prototype-retagged', '((not given) and not options.get("native", False)) ==> '
+                                                       '(result.cloneOf is self.protoComponent)'),
+        # (when the codec serves another type as well -- ENUMERATED is read by the INTEGER codec -- the wire tag is not
+        # the prototype's and stays)
+        ('schemaless-value-own-tag-as-declared', '((not given) and not options.get("native", False) and nProto > 0 and nWire > 0 '
+                                                 'and wireTags[0] == protoTags[0]) ==> '
+                                                 '(result.tagSet.baseTag == protoBase and '
+                                                 'result.tagSet.superTags == protoTags + wireTags[1:])'),
+        ('schemaless-foreign-or-untagged-prototype-carries-the-wire-tags',
+         '((not given) and not options.get("native", False) and '
+         '(nProto == 0 or nWire == 0 or wireTags[0] != protoTags[0])) ==> result.tagSet is old(tagSet)'),
         ('native-mode-hands-out-the-python-value', 'options.get("native", False) ==> result is value')],
-    note='the model `create_component` used by the payload decoder contracts is this function')
+    note='the model `create_component` used by the payload decoder contracts is this function; tags are packed integers, tag '
+         'sequences have any length')
 CONTRACTS = CONTRACTS + [CREATE_COMPONENT]
 
 
